@@ -8,6 +8,7 @@ import (
 	"math/big"
 	"sort"
 	"strings"
+	"sync"
 )
 
 type SortKind int
@@ -30,6 +31,7 @@ type Sort struct {
 }
 
 var sortTab = map[string]*Sort{}
+var sortMu sync.Mutex
 
 func internSort(s *Sort) *Sort {
 	var k string
@@ -45,6 +47,8 @@ func internSort(s *Sort) *Sort {
 	case SUnint:
 		k = s.Name
 	}
+	sortMu.Lock()
+	defer sortMu.Unlock()
 	if o, ok := sortTab[k]; ok {
 		return o
 	}
@@ -157,8 +161,12 @@ func sanitize(s string) string {
 	return sb.String()
 }
 
-func (b *TermBank) True() *Term  { return b.intern(&Term{Op: "const", Sort: BoolSort, Val: big.NewInt(1)}) }
-func (b *TermBank) False() *Term { return b.intern(&Term{Op: "const", Sort: BoolSort, Val: big.NewInt(0)}) }
+func (b *TermBank) True() *Term {
+	return b.intern(&Term{Op: "const", Sort: BoolSort, Val: big.NewInt(1)})
+}
+func (b *TermBank) False() *Term {
+	return b.intern(&Term{Op: "const", Sort: BoolSort, Val: big.NewInt(0)})
+}
 func (b *TermBank) Bool(v bool) *Term {
 	if v {
 		return b.True()
@@ -1346,12 +1354,39 @@ func (b *TermBank) Script(asserts []*Term, inputs []*Term, extraAxioms []string)
 	return sb.String(), logic
 }
 
-// Show renders a term compactly for diagnostics (no sharing).
+// Show renders a term compactly for diagnostics (depth/size limited).
 func (b *TermBank) Show(t *Term) string {
-	p := &printer{b: b, refs: map[*Term]int{}, names: map[*Term]string{}, vars: map[*Term]bool{}, bound: map[*Term]bool{}, apps: map[string]bool{}}
-	s := p.str(t, map[*Term]bool{})
-	if len(s) > 400 {
-		s = s[:400] + "..."
+	var sb strings.Builder
+	budget := 60
+	var rec func(t *Term, d int)
+	rec = func(t *Term, d int) {
+		if budget <= 0 || d > 8 {
+			sb.WriteString("…")
+			return
+		}
+		budget--
+		switch t.Op {
+		case "const":
+			sb.WriteString(b.constStr(t))
+			return
+		case "var":
+			sb.WriteString(t.Name)
+			return
+		}
+		name := t.Op
+		if t.Op == "app" {
+			name = t.Name
+		}
+		if t.Op == "extract" {
+			name = fmt.Sprintf("(_ extract %d %d)", t.P1, t.P2)
+		}
+		sb.WriteString("(" + name)
+		for _, a := range t.Args {
+			sb.WriteString(" ")
+			rec(a, d+1)
+		}
+		sb.WriteString(")")
 	}
-	return s
+	rec(t, 0)
+	return sb.String()
 }
